@@ -214,7 +214,7 @@ Proof.
     rewrite <- !app_assoc. reflexivity.
   - rewrite !app_length; simpl. lia.
   - apply (old_files_snoc pre f). rewrite <- E. exact Ho.
-  - split; [|exact Hrb]. intros x Hx. rewrite nth_error_app2 in Hx by lia. rewrite Nat.sub_diag in Hx.
+  - split; [|exact Hrb]. intros x Hx. rewrite ?Ecur in Hx. rewrite nth_error_app2 in Hx by lia. rewrite Nat.sub_diag in Hx.
     simpl in Hx. inversion Hx; subst; simpl. split; [reflexivity|discriminate].
 Qed.
 
